@@ -134,6 +134,20 @@ def one(ctx, drv, i, prof, case, normalize):
     msg = oracle(ctx, jcase, out.v, out.ret, errs)
     if msg:
         ctx.fail('C11 oracle: ' + msg, jcase)
+    # the same instance used again: the trees belong to the call just made, nothing is left of the previous one
+    if i % 3 == 0:
+        import copy as _copy
+        v2 = real.make_validator(case)
+        try:
+            v2.validate(_copy.deepcopy(case['doc']), update=case.get('update', False), normalize=normalize)
+            for doc2 in ({}, case['doc']):
+                r2 = v2.validate(_copy.deepcopy(doc2), update=case.get('update', False), normalize=normalize)
+                msg = oracle(ctx, dict(jcase, second_document=codec.enc_val(doc2)), v2, r2, list(v2._errors))
+                if msg:
+                    ctx.fail('C11 oracle (instance used again): ' + msg, dict(jcase, second_document=codec.enc_val(doc2)))
+                    break
+        except Exception:
+            pass
     # port
     rng = __import__('random').Random(i)
     dreal = dump_real(out.v.document_error_tree)
